@@ -1498,45 +1498,60 @@ fn calculate_stableswap_d(
     // Calculate ann = amp * n_coins
     let ann = calculate_ann(amp, n_coins)?;
 
-    // Use newton_raphson_iterate for the approximation
-    let precision_threshold = Decimal256::one();
+    // Use newton_raphson_iterate for the approximation. D is expressed in whole tokens, so the
+    // iteration has to go on until it moves by no more than one smallest unit of the most
+    // precise asset, not by one whole token.
+    let max_precision = *pool_info.asset_decimals.iter().max().unwrap();
+    let one_unit = Decimal256::decimal_with_precision(1u128, max_precision)?;
+    // Decimal256 carries 18 digits, and with its rounding the iteration can keep oscillating by
+    // a few hundred atomics (more on extremely skewed pools). If it does not settle within one
+    // unit, relax the criterion step by step instead of refusing a swap: 15 digits first, then
+    // the original one whole token.
+    let thresholds = [
+        one_unit,
+        one_unit.max(Decimal256::decimal_with_precision(1u128, 15)?),
+        Decimal256::one(),
+    ];
 
-    newton_raphson_iterate(
-        sum_pools,
-        NEWTON_ITERATIONS,
-        precision_threshold,
-        |current_d| {
-            let new_d = pool_info
-                .assets
-                .iter()
-                .enumerate()
-                .try_fold::<_, _, Result<_, ContractError>>(current_d, |acc, (index, asset)| {
-                    let pool_amount = Decimal256::decimal_with_precision(
-                        asset.amount,
-                        pool_info.asset_decimals[index],
-                    )?;
-                    let mul_pools = pool_amount.checked_mul(n_coins_decimal)?;
-                    acc.checked_multiply_ratio(current_d, mul_pools)
-                })?;
+    let next_d = |current_d: Decimal256| -> Result<Decimal256, ContractError> {
+        let new_d = pool_info
+            .assets
+            .iter()
+            .enumerate()
+            .try_fold::<_, _, Result<_, ContractError>>(current_d, |acc, (index, asset)| {
+                let pool_amount =
+                    Decimal256::decimal_with_precision(asset.amount, pool_info.asset_decimals[index])?;
+                let mul_pools = pool_amount.checked_mul(n_coins_decimal)?;
+                acc.checked_multiply_ratio(current_d, mul_pools)
+            })?;
 
-            // current_d = ((ann * sum_pools + new_d * n_coins) * current_d) / ((ann - 1) * current_d + (n_coins + 1) * new_d)
-            let next_d = (ann
-                .checked_mul(sum_pools)?
-                .checked_add(new_d.checked_mul(n_coins_decimal)?)?
-                .checked_mul(current_d)?)
-            .checked_div(
-                (ann.checked_sub(Decimal256::one())?
-                    .checked_mul(current_d)?
-                    .checked_add(
-                        n_coins_decimal
-                            .checked_add(Decimal256::one())?
-                            .checked_mul(new_d)?,
-                    ))?,
-            )?;
+        // current_d = ((ann * sum_pools + new_d * n_coins) * current_d) / ((ann - 1) * current_d + (n_coins + 1) * new_d)
+        let next_d = (ann
+            .checked_mul(sum_pools)?
+            .checked_add(new_d.checked_mul(n_coins_decimal)?)?
+            .checked_mul(current_d)?)
+        .checked_div(
+            (ann.checked_sub(Decimal256::one())?
+                .checked_mul(current_d)?
+                .checked_add(
+                    n_coins_decimal
+                        .checked_add(Decimal256::one())?
+                        .checked_mul(new_d)?,
+                ))?,
+        )?;
 
-            Ok(next_d)
-        },
-    )
+        Ok(next_d)
+    };
+
+    let mut result = Err(ContractError::ConvergeError);
+    for threshold in thresholds {
+        result = newton_raphson_iterate(sum_pools, NEWTON_ITERATIONS, threshold, next_d);
+        if !matches!(result, Err(ContractError::ConvergeError)) {
+            break;
+        }
+    }
+
+    result
 }
 
 #[cfg(test)]
